@@ -1,5 +1,236 @@
-"""Model checking of spec/Channel.tla slices (placeholder until the model is bound)."""
+"""spec/Channel.tla: model checking of the implementation-shaped connection
+model and trace validation of real executions against it.
+
+The model slice covers: accept, plain and `Connection: close` requests
+(pipelined, lookahead), responses of two write_soon calls, partial sends,
+select-based poll, 1..2 workers.  Scenarios outside the slice (Expect, socket
+faults, watermark waits, poll()) are explored on the code with the monitor
+only; the evidence says which scenarios were bound to the model."""
+import concurrent.futures as cf
+import json
+import os
+import re
+import shutil
+
+from wv import explore, h_channel, tlc
+from wv.core import MachineryFailure
+from wv.par import pmap
+
+CORE = ("requests", "total_outbufs_len", "will_close", "close_when_flushed", "connected")
+OBJS = ["total_outbufs_len", "close_when_flushed", "will_close", "requests_lock", "outbuf_lock", "requests", "connected", "trigger", "sock", "next", "loop", "L"]
+SUFFIX = re.compile(r"_(\d|c|s|io|w|ws|svc)$")
 
 
-def model_check(chk, pid):
+def labels():
+    src = open(os.path.join(tlc.SPEC, "Channel.tla")).read()
+    alg = src[src.index("--algorithm Channel"):src.index("BEGIN TRANSLATION")] if "BEGIN TRANSLATION" in src else src
+    names = re.findall(r"^\s*([A-Za-z_][A-Za-z_0-9]*):", alg, flags=re.M)
+    sig, internal = {}, []
+    for n in names:
+        base = n
+        while SUFFIX.search(base):
+            base = SUFFIX.sub("", base)
+        hit = None
+        for o in OBJS:
+            if base.endswith("_" + o):
+                rest = base[: -len(o) - 1]
+                if "_" in rest:
+                    func, kind = rest.rsplit("_", 1)
+                    if kind in ("rd", "wr", "acq", "tryacq", "rel", "notify", "wait", "send", "recv", "drain", "pull", "select", "accept", "close", "app"):
+                        hit = "%s.%s.%s" % (func, kind, o)
+                        break
+        if n in ("cl_connect", "cl_send", "cl_read"):
+            hit = "client.%s" % n[3:]
+        if hit:
+            sig[n] = hit
+        else:
+            internal.append(n)
+    return sig, internal
+
+
+def event_sig(name, label):
+    """(thread, (kind, obj, func)) of the harness -> model signature or None (not in the model's alphabet)"""
+    kind, obj, func = (list(label) + ["?", "?"])[:3]
+    func = func.strip("_")
+    if kind == "client":
+        return "client.%s" % {"connect": "connect", "send": "send", "read": "read"}.get(obj, obj)
+    if kind in ("rd", "wr"):
+        return "%s.%s.%s" % (func, kind, obj) if obj in CORE else None
+    if kind in ("acq", "tryacq", "rel", "notify", "wait"):
+        return "%s.%s.%s" % (func, kind, obj) if obj in ("requests_lock", "outbuf_lock") else None
+    if kind in ("send", "recv", "close"):
+        return "%s.%s.sock" % (func, kind) if obj.startswith("c") else ("%s.%s.L" % (func, kind) if obj == "L" else None)
+    if kind == "accept":
+        return "%s.accept.L" % func
+    if kind == "select":
+        return "%s.select.loop" % func
+    if kind in ("pull", "drain"):
+        return "%s.%s.trigger" % (func, kind)
+    if kind == "app":
+        return "%s.app.next" % func
     return None
+
+
+def constants_of(scn):
+    """scenario of checks/chan_common.mk -> TLA+ definitions, or None when outside the model slice"""
+    c = scn["conns"]
+    if len(c) != 1 or scn.get("use_poll") or c[0].get("faults") or scn.get("accept_faults"):
+        return None
+    reqs = {r["k"]: r for r in c[0]["requests"]}
+    if any(r.get("kind", "plain") not in ("plain", "close") for r in reqs.values()):
+        return None
+    a = scn["adj"]
+    if a.get("send_bytes", 1) != 1 or "outbuf_high_watermark" in a:
+        return None
+    apps = scn.get("apps", {})
+    if any(v.get("chunks", [3]) != [3] or v.get("cl", "exact") != "exact" or v.get("write") or v.get("raise_at") is not None for v in apps.values()):
+        return None
+    sends, reads = [], []
+    order = [r["k"] for r in c[0]["requests"]]
+    pos = 0
+    for act in c[0]["client"]:
+        if act[0] == "send":
+            data = act[1]
+            n = data.count(b"\r\n\r\n")
+            ks = order[pos:pos + n]
+            pos += n
+            sends.append("<<%s>>" % ", ".join("[rid |-> %d, close |-> %s]" % (k, "TRUE" if reqs[k].get("kind") == "close" else "FALSE") for k in ks))
+        elif act[0] == "read":
+            reads.append(str(act[1]))
+        elif act[0] == "readall":
+            reads.append("-1")
+        elif act[0] == "readall_after_block":
+            reads.append("-2")
+        elif act[0] != "connect":
+            return None
+    room = c[0].get("room")
+    return {"MSends": "<<%s>>" % ", ".join(sends), "MReads": "<<%s>>" % ", ".join(reads), "MRoom": "-1" if room is None else str(room),
+            "MWorkers": "{%s}" % ", ".join('"w%d"' % i for i in range(scn.get("workers", 1))), "Lookahead": a.get("channel_request_lookahead", 0)}
+
+
+def record(args):
+    """worker: run schedules of one scenario in model mode, return the VO traces"""
+    scn, seed, n, dfs_limit = args
+    from wv.core import repo_on_path
+    repo_on_path()
+    scn = dict(scn)
+    scn["racy"] = CORE
+    out = []
+
+    def one(policy):
+        evs = []
+
+        def build(S):
+            ctx = h_channel.Ctx(S, scn)
+
+            def hook(name, label):
+                g = event_sig(name, label) if label and label[0] != "start" else None
+                if g is None:
+                    return
+                ch = ctx.chans.get("c1")
+                d = ch.__dict__ if ch is not None else {}
+                known = ch is not None and "_wv_requests" in d
+                evs.append({"t": "cl" if name == "c1" else name, "g": g,
+                            "s": {"known": bool(known), "total": d.get("_wv_total_outbufs_len", 0), "nreq": len(d.get("_wv_requests", ()) or ()),
+                                  "will_close": bool(d.get("_wv_will_close", False)), "cwf": bool(d.get("_wv_close_when_flushed", False)),
+                                  "connected": bool(d.get("_wv_connected", False))}})
+            S.on_step = hook
+            return ctx
+        res, steps = explore.run_once(build, policy, budget=3000)
+        return evs, [c for (_, c) in steps], res[-1].get("status")
+    def keep(evs, choices, status):
+        out.append({"ev": evs, "choices": choices, "status": status})
+    e, c, st = one(explore.Replay([]))
+    keep(e, c, st)
+    for i in range(n):
+        pol = explore.Preempt(seed * 7919 + i, k=1 + i % 3, horizon=max(len(c), 50)) if i % 2 else explore.PCT(seed * 7919 + i, d=2, horizon=max(len(c), 50))
+        keep(*one(pol))
+    seen, uniq = set(), []
+    for t in out:
+        k = json.dumps([(x["t"], x["g"]) for x in t["ev"]])
+        if k not in seen:
+            seen.add(k)
+            uniq.append(t)
+    return uniq
+
+
+MC_INVS = ["WireIsPrefix", "InOrderExactlyOnce", "OneAtATime", "NoExecAfterCloseDecision", "TornOnceByIO", "NoCrash", "NoLostWakeup", "AllAnswered"]
+
+
+def write_mc_module(wd, name, consts, extends="Channel"):
+    with open(os.path.join(wd, name + ".tla"), "w") as f:
+        f.write("---- MODULE %s ----\nEXTENDS %s\nMSends == %s\nMWorkers == %s\nMRoom == %s\nMReads == %s\n" % (
+            name, extends, consts["MSends"], consts["MWorkers"], consts["MRoom"], consts["MReads"]))
+        if extends != "Channel":
+            sig, internal = labels()
+            f.write("MSig == [x \\in {%s} |-> CASE %s]\n" % (", ".join('"%s"' % k for k in sig), " [] ".join('x = "%s" -> "%s"' % kv for kv in sig.items())))
+            f.write("MInternal == {%s}\n" % ", ".join('"%s"' % k for k in internal))
+        f.write("====\n")
+
+
+CFG = ("CONSTANTS Sends <- MSends\nWorkers <- MWorkers\nRoomInit <- MRoom\nClientReads <- MReads\nLookahead = %d\nSendBytes = 1\nHWM = 16777216\nRespUnits = 2\n%sCHECK_DEADLOCK FALSE\n")
+
+
+def mc_scenarios(thorough):
+    R = lambda r, c="FALSE": "[rid |-> %d, close |-> %s]" % (r, c)
+    S = [({"MSends": "<< <<%s, %s>> >>" % (R(1), R(2)), "MWorkers": '{"w0"}', "MRoom": "-1", "MReads": "<<>>", "Lookahead": 0}, "2 pipelined, same read, la=0"),
+         ({"MSends": "<< <<%s>>, <<%s>> >>" % (R(1), R(2)), "MWorkers": '{"w0"}', "MRoom": "0", "MReads": "<<-1>>", "Lookahead": 1}, "2 requests, later read, slow client, la=1"),
+         ({"MSends": "<< <<%s, %s>> >>" % (R(1, "TRUE"), R(2)), "MWorkers": '{"w0"}', "MRoom": "1", "MReads": "<<-1>>", "Lookahead": 1}, "close then plain, la=1")]
+    if thorough:
+        S += [({"MSends": "<< <<%s>>, <<%s>> >>" % (R(1), R(2)), "MWorkers": '{"w0", "w1"}', "MRoom": "0", "MReads": "<<1, -1>>", "Lookahead": 1}, "2 workers, partial drain, la=1"),
+              ({"MSends": "<< <<%s, %s>>, <<%s>> >>" % (R(1), R(2, "TRUE"), R(3)), "MWorkers": '{"w0", "w1"}', "MRoom": "1", "MReads": "<<-1>>", "Lookahead": 2}, "plain, close | plain, la=2, 2 workers")]
+    return S
+
+
+def model_check(chk, pid, scns=None, n_traces=None):
+    """(1) TLC exhausts the interleavings of the model on small scenarios; (2) executions of the
+    real server, recorded at the model's alphabet, are validated against the model."""
+    def mc(item):
+        consts, name = item
+        wd = tlc.scratch("chan")
+        try:
+            write_mc_module(wd, "MC_Chan", consts)
+            cfg = "SPECIFICATION Spec\n" + CFG % (consts["Lookahead"], "") + "".join("INVARIANT %s\n" % i for i in MC_INVS)
+            return tlc.run("MC_Chan", cfg, workdir=wd, workers=5, timeout=2400)
+        finally:
+            shutil.rmtree(wd, ignore_errors=True)
+    items = mc_scenarios(chk.thorough)
+    with cf.ThreadPoolExecutor(3) as ex:
+        for item, r in zip(items, ex.map(mc, items)):
+            chk.add_tlc("MC:Channel %s" % item[1], r, "every interleaving at visible-operation granularity")
+            if r.violated:
+                chk.violation({"kind": "model", "invariant": r.violated, "scenario": item[1]},
+                              "Channel.tla (the model of the code) violates %s in scenario '%s'; last state:\n%s" % (r.violated, item[1], "\n".join(r.trace[-1:])[:1200]))
+    # ---- trace validation ---------------------------------------------------
+    bound = [(s, constants_of(s)) for s in (scns or [])]
+    bound = [(s, c) for s, c in bound if c is not None]
+    chk.extra["scenarios_bound_to_Channel_tla"] = [s.get("name") for s, _ in bound]
+    if not bound:
+        return
+    n = n_traces if n_traces is not None else (60 if chk.thorough else 12)
+    recs = pmap(record, [(s, chk.seed + i, n, 0) for i, (s, _) in enumerate(bound)])
+
+    def tvrun(item):
+        (scn, consts), traces = item
+        wd = tlc.scratch("tvch")
+        try:
+            write_mc_module(wd, "TV_Chan", consts, extends="Trace_Channel")
+            path = os.path.join(wd, "traces.json")
+            with open(path, "w") as f:
+                json.dump([{"id": i, "ev": t["ev"]} for i, t in enumerate(traces)], f)
+            cfg = "SPECIFICATION TraceSpec\n" + CFG % (consts["Lookahead"], "SigOf <- MSig\nInternal <- MInternal\n")
+            return tlc.run("TV_Chan", cfg, workdir=wd, workers=4, timeout=1200, env={"WV_TRACES": path})
+        finally:
+            shutil.rmtree(wd, ignore_errors=True)
+    with cf.ThreadPoolExecutor(4) as ex:
+        for ((scn, consts), traces), r in zip(zip(bound, recs), ex.map(tvrun, list(zip(bound, recs)))):
+            chk.add_tlc("TV:Channel %s" % scn.get("name"), r, "%d recorded executions validated step by step" % len(traces))
+            acc = {t[0] for t in tlc.printed_tuples(r, "ACC")}
+            rej = {t[0]: t for t in tlc.printed_tuples(r, "REJ")}
+            if len(acc) + len(rej) != len(traces):
+                raise MachineryFailure("Trace_Channel: %d traces, %d accepted, %d rejected\n%s" % (len(traces), len(acc), len(rej), r.out[-1500:]))
+            chk.traces_validated += len(acc)
+            for i, t in list(rej.items())[:3]:
+                chk.note_drift("execution of '%s' is not a behaviour of Channel.tla: event %d, thread expected at label %s, real operation %s" % (scn.get("name"), t[1], t[2], t[3]))
+            if rej and len(chk.drift) >= 20:
+                break
